@@ -664,6 +664,30 @@ func genChan(level string) func(rt *rapid.T) chanCase {
 				c.Mut.Span, c.Mut.Repl, c.Mut.Tok = sp.Kind, fmt.Sprintf("big%d", sp.Len), tokenAt(stream, offs, sp.Off)
 				c.Big = true
 			}
+			if kind == "orderby2" && rapid.Bool().Draw(rt, "consistent") {
+				// length and count lie together: both huge and consistent with each other
+				// (length = 2 + 2 x count), the columns themselves missing
+				var lsp, csp *rc.Span
+				for i := range spans {
+					sp := &spans[i]
+					if tokenAt(stream, offs, sp.Off) != rc.TokOrderBy2 {
+						continue
+					}
+					if sp.Kind == "length" && sp.Len == 4 {
+						lsp = sp
+					}
+					if sp.Kind == "count" && sp.Len == 2 {
+						csp = sp
+					}
+				}
+				if lsp != nil && csp != nil {
+					n := uint64(rapid.SampledFrom([]int{65535, 65534, 40000, 32768}).Draw(rt, "count"))
+					copy(stream[lsp.Off:], putUint(4, 2+2*n))
+					copy(stream[csp.Off:], putUint(2, n))
+					c.Mut.Span, c.Mut.Repl, c.Mut.Tok = "length+count", "consistent-huge", rc.TokOrderBy2
+					c.Big = true
+				}
+			}
 			if len(stream) > 120 {
 				stream = stream[:120]
 			}
